@@ -631,39 +631,101 @@ def _norm_expr(t: str) -> str:
     min_instances=9,
 )
 def form_ir_sources(repo, res):
+    """_compute_form_ir interpreted as a whole on a sample FormData; every FormIR field is compared with its documented source."""
+    from ..absint import Interp, Node, Raised, _PyCall
+    from ..lnodes_model import load_classes
+
     rep = repo.mod(REP)
     g = rep.func("_compute_form_ir")
     res.functions.add(g.key)
-    stores = {}
-    for n in walk_no_nested(g.node):
-        if isinstance(n, ast.Assign) and isinstance(n.targets[0], ast.Subscript) and isinstance(n.targets[0].value, ast.Name) \
-                and n.targets[0].value.id == "ir" and isinstance(n.targets[0].slice, ast.Constant):
-            stores.setdefault(n.targets[0].slice.value, []).append(n)
-    want = {
-        "signature": r"original_form\.signature\(\)",
-        "num_coefficients": r"^len\(form_data\.reduced_coefficients\)$",
-        "coefficient_names": r"enumerate\(form_data\.reduced_coefficients\)",
-        "num_constants": r"^len\(form_data\.original_form\.constants\(\)\)$",
-        "constant_ranks": r"len\(obj\.ufl_shape\) for obj in form_data\.original_form\.constants\(\)",
-        "constant_shapes": r"obj\.ufl_shape for obj in form_data\.original_form\.constants\(\)",
-        "constant_names": r"enumerate\(form_data\.original_form\.constants\(\)\)",
-        "original_coefficient_positions": r"^form_data\.original_coefficient_positions$",
-        "finite_element_hashes": r"basix_hash\(\) for e in form_data\.argument_elements \+ form_data\.coefficient_elements",
+
+    def sample(nargs, part):
+        V = Node("FunctionSpace", name="V")
+        args = [Node("Argument", name=f"a{i}", ufl_function_space=_PyCall(lambda: V)) for i in range(nargs)]
+        consts = [Node("Constant", name="k0", ufl_shape=()), Node("Constant", name="k1", ufl_shape=(2, 3)), Node("Constant", name="k2", ufl_shape=(2,))]
+        coefs = [Node("Coefficient", name="B"), Node("Coefficient", name="C")]
+        form = Node("Form", signature=_PyCall(lambda: "SIG"), arguments=_PyCall(lambda: list(args)), constants=_PyCall(lambda: list(consts)))
+        els = [Node("Element", basix_hash=_PyCall(lambda h_=h: h_)) for h in (11, 22, 33, 44)]
+        itg = [Node("IntegralData", integral_type="cell", subdomain_id=(3, "otherwise")), Node("IntegralData", integral_type="exterior_facet", subdomain_id=(7,))]
+        # the preprocessed form lost a constant and an argument-independent coefficient: a plausible but wrong source for every count
+        pre = Node("Form", signature=_PyCall(lambda: "SIG-PRE"), arguments=_PyCall(lambda: list(args)), constants=_PyCall(lambda: list(consts[1:])),
+                   coefficients=_PyCall(lambda: list(coefs[1:])))
+        fd = Node("FormData", original_form=form, preprocessed_form=pre, reduced_coefficients=list(coefs), original_coefficient_positions=[1, 2], argument_elements=els[:nargs],
+                  coefficient_elements=els[2:], integral_data=itg)
+        names = {(5, 0): "integral_a", (5, 1): "integral_b"}
+        domains = {"integral_a": ["dom_a"], "integral_b": ["dom_b1", "dom_b2"]}
+        onames = {id(coefs[0]): "beta", id(consts[1]): "kappa", id(form): "a"}
+        it = Interp(repo, load_classes(repo), primary=REP)
+        it.overrides["logger"] = Node("Logger", info=_PyCall(lambda *a: None), debug=_PyCall(lambda *a: None))
+        it.overrides["id"] = _PyCall(lambda o: id(o))
+        it.overrides["FormIR"] = _PyCall(lambda **k: Node("FormIR", **k))
+        tp = f"TensorPart.{part}"
+        return it, [fd, 5, "p", {5: "form_name"}, names, domains, onames, tp], nargs
+
+    cases = {"bilinear form": (2, "full"), "bilinear form, diagonal part": (2, "diagonal"), "linear form": (1, "full"), "linear form with part=diagonal": (1, "diagonal"),
+             "functional": (0, "full")}
+    results = {}
+    for label, (nargs, part) in cases.items():
+        it, args, _n = sample(nargs, part)
+        try:
+            results[label] = it.call_f(g, args)
+        except Raised as e:
+            results[label] = f"raises {e.what}"
+    want_common = {
+        "signature": "SIG", "num_coefficients": 2, "coefficient_names": ["beta", "w1"], "num_constants": 3, "constant_ranks": [0, 2, 1],
+        "constant_shapes": [(), (2, 3), (2,)], "constant_names": ["c0", "kappa", "c2"], "original_coefficient_positions": [1, 2],
+        "name": "form_name", "name_from_uflfile": "form_p_a", "id": 5,
     }
-    for fld, pat in want.items():
+    why = {
+        "num_constants": "the constants of the original form (what the caller packs into c)", "constant_ranks": "rank of each constant of the original form, in order",
+        "constant_shapes": "shape of each constant of the original form, in order", "constant_names": "names follow the constants of the original form, in order",
+        "num_coefficients": "the reduced coefficients (what the caller packs into w)", "coefficient_names": "names follow form_data.reduced_coefficients",
+        "original_coefficient_positions": "UFL's positions of the reduced coefficients in the original form",
+    }
+    for fld, want in want_common.items():
         key = f"{g.key}:ir[{fld}]"
         res.ob(key)
-        if fld not in stores:
-            res.fail(key, f"FormIR field {fld} is not computed", rep.line(g.node))
+        for label, out in results.items():
+            if isinstance(out, str):
+                res.fail(key, f"_compute_form_ir {out} on a sample {label}", rep.line(g.node))
+                break
+            got = out.f.get(fld, "<missing>")
+            got_n = [tuple(x) if isinstance(x, (list, tuple)) else x for x in got] if isinstance(got, list) else got
+            if got_n != want:
+                res.fail(key, f"FormIR.{fld} of a sample {label} is {got!r}, expected {want!r}" + (f" ({why[fld]})" if fld in why else ""), rep.line(g.node))
+                break
+    key = f"{g.key}:ir[finite_element_hashes]"
+    res.ob(key)
+    for label, (nargs, part) in cases.items():
+        out = results[label]
+        if isinstance(out, str):
             continue
-        txt = ast.unparse(stores[fld][-1].value)
-        if not re.search(pat, txt):
-            res.fail(key, f"FormIR.{fld} is computed as `{txt[:100]}`; expected source /{pat}/", rep.line(stores[fld][-1]))
+        want = [11, 22][:nargs] + [33, 44]
+        if list(out.f.get("finite_element_hashes", [])) != want:
+            res.fail(key, f"FormIR.finite_element_hashes of a sample {label} is {out.f.get('finite_element_hashes')}, expected {want}: argument elements first, "
+                     "then coefficient elements", rep.line(g.node))
+            break
     key = f"{g.key}:ir[rank]"
     res.ob(key)
-    rk = [ast.unparse(n.value) for n in stores.get("rank", [])]
-    if sorted(rk) != sorted(["1", "len(form_data.original_form.arguments())"]):
-        res.fail(key, f"FormIR.rank is assigned {rk}; expected len(original_form.arguments()) and 1 for the diagonal part", rep.line(g.node))
+    for label, (nargs, part) in cases.items():
+        out = results[label]
+        if isinstance(out, str):
+            continue
+        want = 1 if (nargs == 2 and part == "diagonal") else nargs
+        if out.f.get("rank") != want:
+            res.fail(key, f"FormIR.rank of a sample {label} is {out.f.get('rank')}, expected {want}: the number of arguments of the original form, 1 for the "
+                     "diagonal of a bilinear form", rep.line(g.node))
+            break
+    key = f"{g.key}:ir[integrals]"
+    res.ob(key)
+    out = results["bilinear form"]
+    if not isinstance(out, str):
+        got = {t_: list(zip(out.f["subdomain_ids"][t_], out.f["integral_names"][t_], [tuple(d_) for d_ in out.f["integral_domains"][t_]]))
+               for t_ in out.f.get("subdomain_ids", {}) if out.f["subdomain_ids"][t_]}
+        want = {"cell": [(3, "integral_a", ("dom_a",)), (-1, "integral_a", ("dom_a",))], "exterior_facet": [(7, "integral_b", ("dom_b1", "dom_b2"))]}
+        if got != want:
+            res.fail(key, f"(subdomain id, kernel name, cell types) per integral type are {got}, expected {want}: one entry per subdomain id of each integral group, "
+                     "\"otherwise\" as -1, each next to its own kernel", rep.line(g.node))
 
 
 @rule(
